@@ -96,6 +96,8 @@ def run(chk):
                     vq64, wq64 = kmq.get_variances_and_weights_for_each_cluster(Xq64)
                     vqd, wqd = kmq.get_variances_and_weights_for_each_cluster(da.from_array(Xq, chunks=(max(1, N // 2), D)))
                     dq, dq64 = np.asarray(kmq.transform(Xq)), np.asarray(kmq.transform(Xq64))
+                    dXq = da.from_array(Xq, chunks=(max(1, N // 2), D))
+                    dqd, lqd = np.asarray(kmq.transform(dXq)), np.asarray(kmq.predict(dXq))
                 except Exception as e:
                     chk.fail("k-means statistics / distances on %s samples raise %r" % (np.dtype(dt).name, e), dict(ctx, dtype=np.dtype(dt).name))
                     continue
@@ -103,6 +105,11 @@ def run(chk):
                 labq = np.asarray(kmq.predict(Xq64))
                 refv = np.array([Xq64[labq == k].var(axis=0) if np.any(labq == k) else np.zeros(D) for k in range(K)])
                 # integer samples are exact in binary64; single-precision samples are summed in single precision (results carry the input's precision)
+                # the same samples in a Dask array of that dtype: distances and labels are those of the values (fractional centroids are not cast to it)
+                rd_ = 1e-12 if dt is not np.float32 else 1e-5
+                if not (np.allclose(dqd, dq64, rtol=rd_, atol=rd_) and (np.array_equal(lqd, labq) or not kt.margin_ok(kmq.centroids_, Xq64, rel=1e-4))):
+                    chk.fail("on a Dask array of %s samples transform / predict are not the distances / labels of the sample values (largest distance error %.3g)"
+                             % (np.dtype(dt).name, float(np.abs(dqd - dq64).max())), dict(ctx, dtype=np.dtype(dt).name, Xq=hexlist(Xq64), entry="transform/predict on a Dask array"))
                 tolq = 64 * eps * 255.0 ** 2 if dt is not np.float32 else 64 * float(np.finfo(np.float32).eps) * 255.0 ** 2
                 rq = 1e-9 if dt is not np.float32 else 1e-4
                 if not (np.allclose(np.asarray(vq), refv, rtol=rq, atol=tolq) and np.allclose(np.asarray(vq), np.asarray(vq64), rtol=rq, atol=tolq)
@@ -110,6 +117,25 @@ def run(chk):
                         and np.allclose(np.asarray(wqd), np.asarray(wq64)) and np.allclose(dq, dq64, rtol=1e-12, atol=0) and np.all(np.asarray(vq) >= -tolq)):
                     chk.fail("on %s samples the cluster variances / weights / distances are not those of the sample values (variances %s, expected %s)"
                              % (np.dtype(dt).name, np.asarray(vq).tolist(), refv.tolist()), dict(ctx, dtype=np.dtype(dt).name, Xq=hexlist(Xq64)))
+        # more than 2**16 rows in one call / one block: every row is labelled (weights = fractions, variances = biased variances of ALL members)
+        if i == 0 or (chk.tier == "thorough" and i % 100 == 0):
+            gbig = gen.nprng(r)
+            Nb = 70001
+            cb = np.array([[0.0, 0.0], [5.0, 1.0]])
+            labb = (np.arange(Nb) % 2)                     # alternating, so the tail of the array belongs to both clusters
+            Xb = cb[labb] + gbig.normal(size=(Nb, 2)) * 0.5
+            kmb = KMeansMachine(n_clusters=2)
+            kmb.centroids_ = cb.copy()
+            labr = np.argmin(((cb[:, None, :] - Xb[None, :, :]) ** 2).sum(-1), axis=0)
+            wantw = np.bincount(labr, minlength=2) / Nb
+            wantv = np.array([Xb[labr == k].var(axis=0) for k in range(2)])
+            for chb in (None, (Nb,), (66000, 4001)):
+                vb, wb = kmb.get_variances_and_weights_for_each_cluster(Xb if chb is None else da.from_array(Xb, chunks=(chb, (2,))))
+                chk.count(1, key=("many rows", str(chb)))
+                if not (np.allclose(np.asarray(wb), wantw, rtol=1e-12, atol=1e-12) and np.allclose(np.asarray(vb), wantv, rtol=1e-8, atol=1e-10)):
+                    chk.fail("with %d samples (row blocks %s) the cluster weights %s / variances are not the fractions %s / biased variances of the nearest-centroid assignment"
+                             % (Nb, chb, np.asarray(wb).tolist(), wantw.tolist()), {"N": Nb, "row_blocks": list(chb) if chb else None, "centroids": hexlist(cb),
+                                                                                    "data": "alternating clusters around [[0,0],[5,1]] with sd 0.5, numpy default_rng stream of this run"})
         # several lazy results evaluated in ONE graph (two arrays through the same machine, two machines on the same array): each is its own
         if N >= 4 and i % 3 == 1:
             h = N // 2
